@@ -121,7 +121,67 @@ def _z3_check(text, timeout_ms, opts=None):
         return "error", f"{type(e).__name__}: {e}"
 
 
+Z3_OLD = "/usr/bin/z3"  # Debian z3 4.8.12: an independent build used to confirm every `unsat` of the z3-solver wheel
+CONFIRM = os.environ.get("PV_NO_CONFIRM") != "1" and os.path.exists(Z3_OLD)
+
+
+def _z3_cli(text, timeout_s, opts=None):
+    with tempfile.NamedTemporaryFile("w", suffix=".smt2", delete=False, dir=os.environ.get("TMPDIR", "/tmp")) as f:
+        f.write(text if "(check-sat)" in text else text + "\n(check-sat)\n")
+        path = f.name
+    try:
+        args = [Z3_OLD, f"-T:{int(timeout_s)}"] + [f"{k}={'true' if v is True else 'false' if v is False else v}" for k, v in (opts or {}).items()]
+        p = subprocess.run(args + [path], capture_output=True, text=True, timeout=timeout_s + 5)
+        out = (p.stdout or "").strip().splitlines()
+        return out[0].strip() if out else "unknown"
+    except subprocess.TimeoutExpired:
+        return "timeout"
+    finally:
+        os.unlink(path)
+
+
+def confirm_unsat(text, opts, spent_s, skip_cvc5=False):
+    """Second opinion on an `unsat` of z3 5.1.0 (which was observed to answer `unsat` on a satisfiable sequence
+    problem, see DESIGN 0.4): the same text, same options, with z3 4.8.12; then its default configuration; then cvc5.
+    Returns 'confirmed:<solver>' | 'conflict:<solver>' | 'unconfirmed'."""
+    if not CONFIRM:
+        return "unconfirmed"
+    budget = max(8, min(30, int(3 * spent_s) + 5))
+    r = _z3_cli(text, budget, opts)
+    if r == "unsat":
+        return "confirmed:z3-4.8.12"
+    if r == "sat":
+        return "conflict:z3-4.8.12"
+    if opts:
+        r = _z3_cli(text, budget)
+        if r == "unsat":
+            return "confirmed:z3-4.8.12"
+        if r == "sat":
+            return "conflict:z3-4.8.12"
+    if skip_cvc5:
+        return "unconfirmed"
+    r, _ = run_cvc5(text, budget)
+    if r == "unsat":
+        return "confirmed:cvc5"
+    if r == "sat":
+        return "conflict:cvc5"
+    return "unconfirmed"
+
+
 def _solve_text(args):
+    res = _solve_text0(args)
+    if len(res) == 6:
+        name, r, backend, t, reason, (text_used, opts) = res
+        if r == "unsat" and args[2] == "valid":
+            c = confirm_unsat(text_used, opts, t, skip_cvc5=(backend == "cvc5"))
+            if c.startswith("conflict"):
+                return name, "unknown", backend, t, f"SOLVER DISAGREEMENT: {backend} (z3 {z3.get_version_string()}) says unsat, {c.split(':')[1]} says sat"
+            backend = backend + ("+" + c.split(":")[1] if c.startswith("confirmed") else "(single)")
+        return name, r, backend, t, reason
+    return res
+
+
+def _solve_text0(args):
     """z3 with a short budget, then cvc5, then z3 with the full budget."""
     name, text, expect, timeout_ms, use_cvc5 = args[:5]
     subsets = args[5] if len(args) > 5 else []
@@ -137,35 +197,35 @@ def _solve_text(args):
         return name, r, "z3", time.time() - t0, reason
     r1, _ = _z3_check(text, 2500, LIN)
     if r1 == "unsat":
-        return name, r1, "z3-lin", time.time() - t0, ""
+        return name, r1, "z3-lin", time.time() - t0, "", (text, LIN)
     if expect == "valid":
         for tag, sub in subsets:
             r1, _ = _z3_check(sub, 8000, EM)
             if r1 == "unsat":
-                return name, r1, f"z3-{tag}", time.time() - t0, ""
+                return name, r1, f"z3-{tag}", time.time() - t0, "", (sub, EM)
     r1, _ = _z3_check(text, first, EM)
     if r1 == "unsat":
-        return name, r1, "z3-ematch", time.time() - t0, ""
+        return name, r1, "z3-ematch", time.time() - t0, "", (text, EM)
     r, reason = _z3_check(text, first)
     if r in ("sat", "unsat"):
-        return name, r, "z3", time.time() - t0, reason
+        return name, r, "z3", time.time() - t0, reason, (text, {})
     if expect == "valid":
         for tag, sub in subsets:
             r1, _ = _z3_check(sub, 8000, LIN)
             if r1 == "unsat":
-                return name, r1, f"z3-{tag}-lin", time.time() - t0, ""
+                return name, r1, f"z3-{tag}-lin", time.time() - t0, "", (sub, LIN)
     r1, _ = _z3_check(text, 3 * first, LIN)
     if r1 == "unsat":
-        return name, r1, "z3-lin", time.time() - t0, ""
+        return name, r1, "z3-lin", time.time() - t0, "", (text, LIN)
     if use_cvc5:
         r2, reason2 = run_cvc5(text)
         if r2 in ("sat", "unsat"):
-            return name, r2, "cvc5", time.time() - t0, reason2
+            return name, r2, "cvc5", time.time() - t0, reason2, (text, {})
         reason = f"z3: {reason}; cvc5: {reason2}"
     if timeout_ms > first:
         r, reason3 = _z3_check(text, timeout_ms)
         if r in ("sat", "unsat"):
-            return name, r, "z3", time.time() - t0, reason3
+            return name, r, "z3", time.time() - t0, reason3, (text, {})
         reason = f"{reason}; z3 (full budget): {reason3}"
     return name, r, "z3", time.time() - t0, reason
 
@@ -226,7 +286,7 @@ def run_jobs(jobs, workers, hard_factor=3.0):
             p = ctx.Process(target=_job_main, args=(child, job), daemon=True)
             p.start()
             child.close()
-            hard = (6 * min(job[3], 6000) + job[3] + 16000 * (len(job[5]) if len(job) > 5 else 0)) / 1000.0 * 1.5 + (CVC5_TIMEOUT_S + 6 if job[4] else 0) + 5
+            hard = (6 * min(job[3], 6000) + job[3] + 16000 * (len(job[5]) if len(job) > 5 else 0)) / 1000.0 * 1.5 + (CVC5_TIMEOUT_S + 6 if job[4] else 0) + 5 + (100 if CONFIRM else 0)
             running[job[0]] = (p, parent, time.time(), hard)
         done = []
         for name, (p, conn, t0, hard) in running.items():
@@ -374,4 +434,10 @@ def solve_ground(ob, timeout_ms=10000):
     for f in forms:
         s.add(f)
     r = s.check()
-    return str(r), (s.model() if r == z3.sat else None), f"{len(forms)} ground formulas, {dropped} universals without candidates"
+    note = f"{len(forms)} ground formulas, {dropped} universals without candidates"
+    if r == z3.unsat and CONFIRM:
+        c = _z3_cli(s.to_smt2(), 20)
+        if c == "sat":
+            return "unknown", None, note + "; SOLVER DISAGREEMENT on the ground problem (z3 4.8.12 says sat)"
+        note += "; confirmed by z3 4.8.12" if c == "unsat" else "; (single)"
+    return str(r), (s.model() if r == z3.sat else None), note
